@@ -11,6 +11,7 @@ package main
 // parameter, global); a store joins into the root, a load reads the root.
 
 import (
+	"go/constant"
 	"go/token"
 	"go/types"
 
@@ -201,8 +202,8 @@ func (fx *FX) computeLabels() {
 					set(x, get(x.X))
 					if st, ok := x.X.Type().Underlying().(*types.Pointer).Elem().Underlying().(*types.Struct); ok {
 						switch st.Field(x.Field).Name() {
-						case "Secret":
-							set(x, label{key: true}) // a field named Secret carries the shared secret
+						case "Secret", "RawQuery":
+							set(x, label{key: true}) // a field named Secret carries the shared secret; so does a URL's raw query
 							setMem(x, label{key: true})
 						case "Code":
 							set(x, label{usr: true})
@@ -324,6 +325,22 @@ func (fx *FX) labelCallInstr(ci ssa.CallInstruction, get func(ssa.Value) label, 
 		setMem(rootOf(c.Args[1]), get(c.Args[2]))
 		return
 	case "(*sync.Pool).Get", "(*sync.Pool).Put", "(time.Time).Unix":
+		return
+	case "(*net/url.URL).String", "(*net/url.URL).Redacted", "(*net/url.URL).RequestURI", "(*net/url.URL).Query", "(*net/url.URL).MarshalBinary":
+		// an otpauth URL carries the shared secret in its query (Redacted hides only the userinfo password)
+		if v != nil {
+			set(v, argJoin().join(label{key: true}))
+		}
+		return
+	case "(net/url.Values).Get":
+		// query parameters are labelled per name: only the one called secret is the secret
+		if v != nil {
+			if k, ok := c.Args[1].(*ssa.Const); ok && k.Value != nil && constant.StringVal(k.Value) != "secret" {
+				set(v, label{})
+			} else {
+				set(v, argJoin())
+			}
+		}
 		return
 	}
 	if v != nil {
